@@ -374,7 +374,23 @@ pub fn judge(c: &Case, st: &mut Stats) -> Verdict {
             format!("{:?}, {:?}, {}", h.command, h.protocol, imp::short(&format!("{:?}", h.addresses))),
         );
     }
+    // ... through the auto-detecting entry point as well (the route a server takes; also for the largest headers)
+    match imp::auto(&built) {
+        Ok(ppp::HeaderResult::V2(Ok(ha))) if ha.as_bytes() == &built[..] && imp::addr2(&ha.addresses) == c.addr => {}
+        other => return fail("parse-back-auto", "V2(Ok) with the same header bytes and addresses".into(), imp::short(&format!("{:?}", other))),
+    }
     if fam != 0 {
+        // the TLV sequence gathered by internal iteration (fold / for_each) is the one next() yields
+        if list.len() <= 64 {
+            let folded = crate::engine::guard(|| h.tlvs().fold(Vec::new(), |mut acc, item| {
+                acc.push(item.map(|t| (t.kind, t.value.to_vec())).map_err(|e| format!("{:?}", e)));
+                acc
+            }));
+            let same = matches!(&folded, Ok(f) if f.len() == list.len() && f.iter().zip(&list).all(|(g, (k, v))| matches!(g, Ok((gk, gv)) if gk == k && gv.as_slice() == *v)));
+            if !same {
+                return fail("parse-back-tlvs-fold", format!("{} TLVs through fold", list.len()), imp::short(&format!("{:?}", folded.map(|f| f.iter().map(|g| g.as_ref().map(|(k, v)| (*k, v.len())).map_err(|e| e.clone())).collect::<Vec<_>>()))));
+            }
+        }
         let got: Vec<_> = match crate::engine::guard(|| h.tlvs().take(list.len() + 2).collect::<Vec<_>>()) {
             Ok(g) => g,
             Err(p) => return fail("parse-back-tlvs", "iteration returns".into(), format!("panic: {}", p)),
